@@ -147,12 +147,16 @@ class CHECK(vlib.Check):
         # multi-threaded histories under the controlled scheduler: random programs x random schedules
         for i in range(250 if tier == "quick" else 4000):
             out.append(("sched-random", sched_case(rng)))
-        # every schedule (all 2^9 decision strings) of two workers that drop / copy / advance on a shared chain
-        for progs in ("np:0;np:1;as:m0.0:s1;rs:s1/rs:s0/as:s0:m0.0;rs:s0/rs:s0",
-                      "nh:0/rs:s0/as:s1:s0;rs:s0;rs:s1/cc:s1:s0;rs:s1;rs:s0",
-                      "np:0/rs:s0/rs:s0;np:0;rs:s0/rs:s0;np:1;rs:s1"):
+        # every schedule (all 2^9 explicit decision strings, then non-preemptive) of two workers that drop / copy / advance /
+        # convert on shared objects, and that obtain from / release to a pool whose slabs are created and deleted on the way
+        for hdr, progs in (("S2:0", "np:0;np:1;as:m0.0:s1;rs:s1/rs:s0/as:s0:m0.0;rs:s0/rs:s0"),
+                           ("S2:0", "nh:0/rs:s0/as:s1:s0;rs:s0;rs:s1/cc:s1:s0;rs:s1;rs:s0"),
+                           ("S2:0", "np:0/rs:s0/rs:s0;np:0;rs:s0/rs:s0;np:1;rs:s1"),
+                           ("S1:0", "np:0/rs:s0/rs:s0;np:1;rs:s1/rs:s0;np:1;rs:s1"),
+                           ("S2:1", "nh:0/rs:s0/al:s1:s0;as:s1:s0;rs:s1;rs:s0/al:s0:s0;as:s1:s0;rs:s0;rs:s1"),
+                           ("S2:0", "np:0;np:1;as:m0.0:s1;rs:s1/rs:s0;rs:s1/as:s0:m0.0;rs:s0/as:s1:m0.0;rs:s0;rs:s1")):
             for bits in range(512):
-                out.append(("sched-exhaustive", "S2:0:%d:%s|%s" % (S, ".".join(str((bits >> j) & 1) for j in range(9)), progs)))
+                out.append(("sched-exhaustive", "%s:%d:%s|%s" % (hdr, S, ".".join(str((bits >> j) & 1) for j in range(9)), progs)))
         # directed: the list-advance idiom (F11) over chains of 2..4 objects, heap and pooled
         for kind in ("nh", "np"):
             for N in (1, 2, 3):
